@@ -395,5 +395,8 @@ func (p *prop) Generate(rng *core.Rand, tier string, emit func(string)) {
 		if i%20 == 0 {
 			emit(genCf(rng))
 		}
+		if i%5 == 0 {
+			emit(genURL(rng))
+		}
 	}
 }
